@@ -303,7 +303,11 @@ def openStore (w : Which) (d : Durable) : Option Durable :=
   let d := d.setFile w f
   if f.corrupt then none else
   match f.ents.getLast? with
-  | none => none                                      -- (first-time initialisation is not modelled)
+  | none =>
+    -- first-time initialisation: the file is empty, the genesis entry is written (file, then index)
+    match w with
+    | .B => some { d with bf := { ents := [0] }, db := d.db.addHeaders [0] 0 }
+    | .F => some { d with ff := { ents := [0] }, db := { d.db with ftip := some 0 } }
   | some latest =>
     let tip := match w with | .B => btipHeight? d | .F => ftipHeight? d
     match tip with
@@ -369,6 +373,21 @@ def exec (d : Durable) (op : Op) (inj : Inj) : Durable × Out :=
     match reopen d with
     | some d' => (d', .ok)
     | none => (d, .err)
+
+/-- an empty data directory -/
+def empty : Durable := { bf := { ents := [] }, ff := { ents := [] }, db := {} }
+
+/-- What is on disk when the very first start is killed right before the n-th
+index transaction of the two constructors (1: bucket creation; 2: the block
+store's genesis entry — its file write is done; 3: the filter store's bucket
+check; 4: the filter store's genesis tip — its file write is done; ≥ 5: never). -/
+def initCrash : Nat → Durable
+  | 0 => empty
+  | 1 => empty
+  | 2 => { empty with bf := { ents := [0] } }
+  | 3 => { bf := { ents := [0] }, ff := { ents := [] }, db := { idx := [(0, 0)], btip := some 0 } }
+  | 4 => { bf := { ents := [0] }, ff := { ents := [0] }, db := { idx := [(0, 0)], btip := some 0 } }
+  | _ => { bf := { ents := [0] }, ff := { ents := [0] }, db := { idx := [(0, 0)], btip := some 0, ftip := some 0 } }
 
 /-- the state right after first-time initialisation -/
 def init : Durable :=
